@@ -69,15 +69,19 @@ type Step struct {
 	Lane int    `json:"lane"`           // lane d: endpoint d writes, endpoint 1-d reads
 	N    int    `json:"n,omitempty"`    // w: bytes written; r: read buffer size
 	Seed uint64 `json:"seed,omitempty"` // w: data seed
-	Kind string `json:"kind,omitempty"` // m: flip | swap | replay | drop | truncate | splice
+	Kind string `json:"kind,omitempty"` // m: flip | swap | replay | drop | truncate | splice | replayd | swapd
 	I    int    `json:"i,omitempty"`
 	J    int    `json:"j,omitempty"`
 	Bit  int    `json:"bit,omitempty"`
+	Rep  int    `json:"rep,omitempty"`  // w / r: repeat the step this many times (0 = once)
+	Same bool   `json:"same,omitempty"` // w: every repetition writes the same bytes
+	Dist int    `json:"dist,omitempty"` // m replayd: the frame sent Dist frames earlier takes the place of (J even) or is put before (J odd) frame I in flight; swapd: frames I and I+Dist in flight change places
 }
 
 type StreamCase struct {
 	ALo        bool   `json:"a_lo"` // which side has the lexically lower ephemeral key (decides the nonce roles)
 	SmallReads bool   `json:"small_reads"`
+	Long       bool   `json:"long,omitempty"` // session of several hundred frames per direction
 	Steps      []Step `json:"steps"`
 	DrainBufs  []int  `json:"drain_bufs"`
 }
@@ -98,6 +102,10 @@ func genStream(t *rapid.T) StreamCase {
 		bufGen = rapid.OneOf(rapid.SampledFrom([]int{1024, 1025, 2048, 3000}), rapid.IntRange(1024, 3000))
 	}
 	sizeGen := rapid.OneOf(rapid.SampledFrom([]int{0, 1, 2, 100, 1023, 1024, 1025, 2047, 2048, 2049, 3072, 5000}), rapid.IntRange(0, 5000), rapid.IntRange(0, 64))
+	if rapid.IntRange(0, 7).Draw(t, "long") == 0 {
+		genLongSession(t, &c, bufGen)
+		return c
+	}
 	tamper := rapid.IntRange(0, 2).Draw(t, "tamper") != 0
 	oneWay := rapid.IntRange(0, 3).Draw(t, "oneWay") == 0
 	n := rapid.IntRange(1, 14).Draw(t, "nsteps")
@@ -144,6 +152,43 @@ func genStream(t *rapid.T) StreamCase {
 	return c
 }
 
+// Distances at which a nonce sequence with a short period, a lost carry or an off-by-one would make
+// an old frame acceptable again.
+var editDistances = []int{128, 127, 129, 256, 255, 257, 1, 2}
+
+// genLongSession: several hundred small frames in each direction (so that counters run through
+// their low-byte wrap more than once), optionally partly read, then edits that put a frame from a
+// generated distance earlier/later in the place of a frame in flight, then more traffic and the drain.
+func genLongSession(t *rapid.T, c *StreamCase, bufGen *rapid.Generator[int]) {
+	c.Long = true
+	size := rapid.SampledFrom([]int{1, 1, 2, 8, 64}).Draw(t, "frameBytes")
+	same := rapid.Bool().Draw(t, "samePlaintext")
+	var frames [2]int
+	for d := 0; d < 2; d++ {
+		frames[d] = rapid.IntRange(130, 600).Draw(t, "frames")
+		c.Steps = append(c.Steps, Step{Op: "w", Lane: d, N: size, Seed: rapid.Uint64().Draw(t, "seed"), Rep: frames[d], Same: same})
+	}
+	for d := 0; d < 2; d++ {
+		if rapid.Bool().Draw(t, "readSome") {
+			c.Steps = append(c.Steps, Step{Op: "r", Lane: d, N: bufGen.Draw(t, "buf"), Rep: rapid.IntRange(1, frames[d]).Draw(t, "readFrames")})
+		}
+	}
+	ne := rapid.IntRange(1, 3).Draw(t, "nedits")
+	for i := 0; i < ne; i++ {
+		s := Step{Op: "m", Lane: rapid.IntRange(0, 1).Draw(t, "lane")}
+		s.Kind = rapid.SampledFrom([]string{"replayd", "replayd", "replayd", "swapd", "swapd", "replay", "swap", "drop", "flip", "splice"}).Draw(t, "kind")
+		s.I = rapid.IntRange(0, 1023).Draw(t, "i")
+		s.J = rapid.IntRange(0, 1<<16).Draw(t, "j")
+		s.Bit = rapid.IntRange(0, 7).Draw(t, "bit")
+		s.Dist = rapid.OneOf(rapid.SampledFrom(editDistances), rapid.SampledFrom(editDistances), rapid.SampledFrom(editDistances), rapid.IntRange(1, 600)).Draw(t, "dist")
+		c.Steps = append(c.Steps, s)
+	}
+	if rapid.Bool().Draw(t, "moreTraffic") {
+		c.Steps = append(c.Steps, Step{Op: "w", Lane: rapid.IntRange(0, 1).Draw(t, "lane"), N: size, Seed: rapid.Uint64().Draw(t, "seed"), Rep: rapid.IntRange(1, 300).Draw(t, "moreFrames"), Same: same})
+	}
+	c.DrainBufs = rapid.SliceOfN(bufGen, 1, 3).Draw(t, "drainBufs")
+}
+
 type laneModel struct {
 	exp, got  []byte
 	plens     []int // plaintext length of every data frame written on the lane, in order
@@ -154,6 +199,11 @@ type laneModel struct {
 	zeroRuns  int
 	smallRead bool
 	reads     int
+	// cached result of analyse: reads do not change consumed||inflight, so it only has to be
+	// recomputed after an edit, the close, or a write while an edit's effect is still pending
+	anValid, anTampered, anFull bool
+	anLegit                     int
+	editDist                    int
 }
 
 // handshake frames of one lane: the ephemeral key, the length frame, the signature frame.
@@ -163,6 +213,26 @@ const hsMsgs = 3
 // returns the number of plaintext bytes that precede the first frame at which the two streams
 // differ (the bytes the reader may legitimately receive) and whether they differ at all.
 func analyse(w *duplex, d int, m *laneModel) (legit int, tampered bool) {
+	if !m.anValid {
+		m.anLegit, m.anTampered, m.anFull = analyseFull(w, d, m)
+		m.anValid = true
+	}
+	if !m.anTampered {
+		return len(m.exp), false
+	}
+	return m.anLegit, true
+}
+
+// afterWrite keeps the cached analysis when a write cannot change it: the new frame is appended to
+// both the sent and the delivered stream, so equal streams stay equal and a first difference stays
+// where it is.
+func (m *laneModel) afterWrite() {
+	if !(m.anValid && (m.anTampered || m.anFull)) {
+		m.anValid = false
+	}
+}
+
+func analyseFull(w *duplex, d int, m *laneModel) (legit int, tampered, full bool) {
 	l := w.lanes[d]
 	S := flat(l.sent)
 	D := append(append([]byte{}, l.consumed...), flat(l.inflight)...)
@@ -171,10 +241,10 @@ func analyse(w *duplex, d int, m *laneModel) (legit int, tampered bool) {
 		o++
 	}
 	if o == len(S) && o == len(D) {
-		return len(m.exp), false
+		return len(m.exp), false, true
 	}
 	if o == len(D) && !l.closed {
-		return len(m.exp), false // the rest is merely not delivered yet (lane still open)
+		return len(m.exp), false, false // the rest is merely not delivered yet (lane still open)
 	}
 	// frame (message) of the sent log that contains offset o
 	f, cum := 0, 0
@@ -185,7 +255,7 @@ func analyse(w *duplex, d int, m *laneModel) (legit int, tampered bool) {
 	for k := 0; k < f-hsMsgs && k < len(m.plens); k++ {
 		legit += m.plens[k]
 	}
-	return legit, true
+	return legit, true, false
 }
 
 func applyMitm(w *duplex, s Step) bool {
@@ -225,6 +295,38 @@ func applyMitm(w *duplex, s Step) bool {
 		}
 		i := s.I % n
 		l.inflight[i] = l.inflight[i][:s.J%len(l.inflight[i])]
+	case "replayd":
+		if n == 0 || s.Dist < 1 {
+			return false
+		}
+		base := len(l.sent) - n // sent-log index of in-flight frame 0 (exact while no earlier edit changed the frame count)
+		minP := 0
+		if s.Dist > base {
+			minP = s.Dist - base
+		}
+		if base < 0 || minP >= n {
+			return false
+		}
+		p := minP + s.I%(n-minP)
+		src := base + p - s.Dist
+		if src < 0 || src >= len(l.sent) {
+			return false
+		}
+		if s.J%2 == 0 {
+			l.inflight[p] = append([]byte{}, l.sent[src]...)
+		} else {
+			ins(p, l.sent[src])
+		}
+	case "swapd":
+		if n == 0 || s.Dist < 1 {
+			return false
+		}
+		if s.Dist >= n {
+			return false
+		}
+		p := s.I % (n - s.Dist)
+		q := p + s.Dist
+		l.inflight[p], l.inflight[q] = l.inflight[q], l.inflight[p]
 	default:
 		return false
 	}
@@ -283,6 +385,7 @@ func runStream(c StreamCase, x *h.Ctx) {
 
 	ms := [2]*laneModel{{}, {}}
 	boundaries := [2]map[int]bool{{0: true}, {0: true}}
+	sums := [2]int{}
 
 	// doRead performs one Read call on lane d; it returns false when the case must stop.
 	doRead := func(d, bufSize int, where string) bool {
@@ -358,45 +461,59 @@ func runStream(c StreamCase, x *h.Ctx) {
 		where := fmt.Sprintf("step %d", si)
 		switch s.Op {
 		case "w":
-			data := expand(s.Seed, s.N)
-			before := len(w.lanes[d].sent)
-			n, err := scs[d].Write(data)
-			if err != nil || n != len(data) {
-				if x.Fail("secretconn-write-short", "%s: Write(%d bytes) on open lane %d returned (%d, %v)", where, len(data), d, n, err) {
-					return
+			reps := s.Rep
+			if reps < 1 {
+				reps = 1
+			}
+			for r := 0; r < reps; r++ {
+				seed := s.Seed
+				if !s.Same {
+					seed += uint64(r)
 				}
-			}
-			m.exp = append(m.exp, data...)
-			for r := len(data); r > 0; {
-				k := r
-				if k > 1024 {
-					k = 1024
+				data := expand(seed, s.N)
+				before := len(w.lanes[d].sent)
+				n, err := scs[d].Write(data)
+				if err != nil || n != len(data) {
+					if x.Fail("secretconn-write-short", "%s: Write(%d bytes) on open lane %d returned (%d, %v)", where, len(data), d, n, err) {
+						return
+					}
 				}
-				m.plens = append(m.plens, k)
-				r -= k
-			}
-			sum := 0
-			for _, k := range m.plens {
-				sum += k
-				boundaries[d][sum] = true
-			}
-			if got, want := len(w.lanes[d].sent)-before, (len(data)+1023)/1024; got != want {
-				// not a property: the bookkeeping maps frames to plaintext by the documented 1024-byte chunking
-				if x.Fail("harness-assumption-frame-count", "%s: a write of %d bytes produced %d wire frames, bookkeeping expects %d", where, len(data), got, want) {
-					return
+				m.exp = append(m.exp, data...)
+				for rest := len(data); rest > 0; {
+					k := rest
+					if k > 1024 {
+						k = 1024
+					}
+					m.plens = append(m.plens, k)
+					sums[d] += k
+					boundaries[d][sums[d]] = true
+					rest -= k
+				}
+				m.afterWrite()
+				if got, want := len(w.lanes[d].sent)-before, (len(data)+1023)/1024; got != want {
+					// not a property: the bookkeeping maps frames to plaintext by the documented 1024-byte chunking
+					if x.Fail("harness-assumption-frame-count", "%s: a write of %d bytes produced %d wire frames, bookkeeping expects %d", where, len(data), got, want) {
+						return
+					}
 				}
 			}
 		case "r":
-			if m.dead {
-				continue
+			reps := s.Rep
+			if reps < 1 {
+				reps = 1
 			}
-			if !doRead(d, s.N, where) {
-				return
+			for r := 0; r < reps && !m.dead; r++ {
+				if !doRead(d, s.N, where) {
+					return
+				}
 			}
 		case "m":
-			if applyMitm(w, Step{Kind: s.Kind, Lane: d, I: s.I, J: s.J, Bit: s.Bit}) && m.kind == "" {
+			applied := applyMitm(w, Step{Kind: s.Kind, Lane: d, I: s.I, J: s.J, Bit: s.Bit, Dist: s.Dist})
+			m.anValid = false
+			if applied && m.kind == "" {
 				if _, t := analyse(w, d, m); t {
 					m.kind = s.Kind
+					m.editDist = s.Dist
 				} else if m.pending == "" {
 					m.pending = s.Kind
 				}
@@ -408,6 +525,7 @@ func runStream(c StreamCase, x *h.Ctx) {
 	w.closeAll()
 	for d := 0; d < 2; d++ {
 		m := ms[d]
+		m.anValid = false
 		budget := len(m.exp) + 2*len(w.lanes[d].inflight) + 64
 		for i := 0; !m.dead; i++ {
 			if i > budget {
@@ -429,6 +547,17 @@ func runStream(c StreamCase, x *h.Ctx) {
 				m.kind = m.pending // e.g. the last frame in flight was dropped: visible only at the close
 			}
 			x.Label("tamper:" + m.kind)
+			if m.kind == "replayd" || m.kind == "swapd" {
+				special := false
+				for _, e := range editDistances {
+					special = special || e == m.editDist
+				}
+				if special {
+					x.Labelf("edit-distance:%d", m.editDist)
+				} else {
+					x.Label("edit-distance:other")
+				}
+			}
 			if len(m.got) == legit {
 				x.Label("tamper-detected-at-frame")
 			} else {
@@ -441,6 +570,9 @@ func runStream(c StreamCase, x *h.Ctx) {
 	}
 	if ms[0].smallRead || ms[1].smallRead {
 		x.Label("read-smaller-than-chunk")
+	}
+	if c.Long {
+		x.Label("long-session")
 	}
 	if len(ms[0].exp) > 0 && len(ms[1].exp) > 0 {
 		x.Label("both-directions")
